@@ -356,6 +356,8 @@ BranchSizesX == {<<3, 1>>, <<2, 1>>}
 \* catalogues for LegalPost.tla: a trunk large enough for a branch to be fused into it, a 1x1 neighbour for the notch
 TrunkSizesP == {<<4, 5>>, <<1, 1>>}
 BranchSizesP == {<<3, 1>>, <<1, 1>>, <<1, 2>>}
+\* two branches of the same depth that tile their bounding box, one of them below the turn-off threshold
+BranchSizesP2 == {<<1, 2>>, <<2, 2>>}
 \* thinner catalogues for Verifier.tla (every run of the real verifier parses three YAML documents)
 DeltasV == {<<1, 0>>, <<0, -1>>, <<-2, -2>>, <<3, 0>>, <<-3, 0>>, <<0, 3>>, <<0, -3>>}
 SlidesV == {<<1, 0>>, <<-1, 0>>, <<0, 1>>, <<0, -1>>, <<2, 0>>}
